@@ -69,7 +69,7 @@ fn witness(kind: &str, fields: &[(&str, String)], expected: &str, actual: &str) 
 
 const PIECES: &[&str] = &[
     "0", "1", "2", "9", "10", "12", "007", "100", "999999999999999999", "9223372036854775807", "9223372036854775808", "99999999999999999999", ".", ".", "_", "pl", "alpha", "beta", "rc", "pre", "nb", "nb1", "nb2",
-    "nb10", "a", "b", "z", "n", "p", "r", "A", "RC", "Alpha", "BETA", "NB3", "Pre", "PL", "*", "?", "[", "]", "[0-9]", "é", "ß", "+", "~", " ", "x", "al", "be", "pr", "\u{212A}", "\u{0130}", "\u{FF21}", "\u{0391}",
+    "nb10", "a", "b", "z", "n", "p", "r", "A", "RC", "Alpha", "BETA", "NB3", "Pre", "PL", "*", "?", "[", "]", "é", "ß", "+", "~", " ", "x", "al", "be", "pr", "\u{212A}", "\u{0130}", "\u{FF21}", "\u{0391}",
 ];
 fn gen_version(r: &mut Rng) -> String {
     let n = r.below(6);
